@@ -161,8 +161,13 @@ class Tr:
                 return st[e.id]
             if e.id in self.consts:
                 return lit_int(self.consts[e.id])
+            if e.id in self.spec.get("class_tags", {}):
+                return lit_int(self.spec["class_tags"][e.id])        # a class used as a value: its tag
             raise Unsupported(f"name {e.id}")
         if isinstance(e, ast.Attribute):
+            if not self.is_class_state(e) and isinstance(e.value, ast.Name) and e.value.id not in st \
+                    and e.attr in self.spec.get("module_enums", {}).get(e.value.id, {}):
+                return lit_int(self.spec["module_enums"][e.value.id][e.attr])      # `ResponseId.STATE`: an IntEnum member
             if self.is_class_state(e):
                 if "cls." + e.attr in st:
                     return st["cls." + e.attr]
@@ -506,6 +511,16 @@ class Tr:
         raise Unsupported("binary op " + type(op).__name__)
 
     def compare(self, e, st, sc):
+        if len(e.ops) == 1 and isinstance(e.ops[0], (ast.In, ast.NotIn)) and isinstance(e.comparators[0], (ast.List, ast.Tuple)) \
+                and e.comparators[0].elts:
+            # `x in [A, B]`: x == A or x == B (ints; the elements are evaluated first, none of them can raise here)
+            left = self.expr(e.left, st, sc)
+            elems = [self.expr(x, st, sc) for x in e.comparators[0].elts]
+            if left.kind != "int" or any(x.kind != "int" for x in elems):
+                raise Unsupported("membership test over non-ints")
+            terms = sorted(f"decide ({' = '.join(sorted([to_int_term(left), to_int_term(x)]))})" for x in elems)
+            t = "(" + " || ".join(terms) + ")"
+            return t if isinstance(e.ops[0], ast.In) else f"(!{t})"
         parts = []
         left = self.expr(e.left, st, sc)
         for op, rhs in zip(e.ops, e.comparators):
@@ -753,6 +768,15 @@ class Tr:
                     return True
         return False
 
+    def external_name(self, call):
+        f = call.func
+        qual = None
+        if isinstance(f, ast.Attribute) and isinstance(f.value, ast.Name):
+            qual = f.value.id + "." + f.attr
+        elif isinstance(f, ast.Name):
+            qual = f.id
+        return qual if qual in self.spec.get("externals", {}) else None
+
     def is_class_state(self, t):
         """`Command._message_id` / `cls._message_id` / `self._message_id` for an attribute the spec declares as class-level
         state (a counter shared by every instance)"""
@@ -868,6 +892,9 @@ class Tr:
                 if name is None:
                     raise Unsupported("raise of a computed exception")
                 return f"Except.error {self.err_of(name)}"
+            if isinstance(s, ast.Expr) and isinstance(s.value, ast.Call) and self.native and self.external_name(s.value) is not None:
+                v = self.call(s.value, st, sc)          # a call made for its exception only (`Frame.validate(x)`)
+                continue
             if self.spec["out"][0] == "write" and isinstance(s, ast.Expr) and isinstance(s.value, ast.Call) \
                     and isinstance(s.value.func, ast.Attribute) and s.value.func.attr == "write" \
                     and isinstance(s.value.func.value, ast.Call) and isinstance(s.value.func.value.func, ast.Name) \
@@ -991,6 +1018,9 @@ class Tr:
                     st[k] = a if a is b else self.ite(c, a, b)
             elif isinstance(s, (ast.Pass,)) or (isinstance(s, ast.Expr) and isinstance(s.value, ast.Constant)) or is_log_call(s):
                 pass
+            elif isinstance(s, ast.Expr) and isinstance(s.value, ast.Call) and self.native and self.external_name(s.value) is not None:
+                # a call made for its exception: the rest of the function is continued separately in each branch
+                raise Unsupported("an effect inside a non-returning branch")
             else:
                 raise Unsupported("statement in branch: " + type(s).__name__)
         return st
@@ -1035,6 +1065,15 @@ class Tr:
             if buf is None or buf.kind != "bytes":
                 raise Unsupported("buffer is not bytes at the end of the iteration")
             return f"pure (some ({self.bytes_term(em)}, {self.bytes_term(buf)}))"
+        if out[0] == "dispatch":
+            # `return some_class(payload)`: which class (its tag) and the bytes handed to its constructor
+            if not (isinstance(retexpr, ast.Call) and len(retexpr.args) == 1 and not retexpr.keywords):
+                raise Unsupported("return is not a constructor call with one argument")
+            cls_v = self.expr(retexpr.func, st, sc)
+            arg = self.expr(retexpr.args[0], st, sc)
+            if cls_v.kind != "int" or arg.kind != "bytes":
+                raise Unsupported("dispatch on a non-class / non-bytes")
+            return f"pure ({to_int_term(cls_v)}, {self.bytes_term(arg)})"
         if out[0] == "value_state":
             # returns an int and leaves a class-level integer attribute updated: (value, attribute afterwards)
             v = self.expr(retexpr, st, sc)
@@ -1318,6 +1357,14 @@ SPECS = [
          out=("unit",), rtype="R Unit", effectful=True,
          functions={"crc8.calculate": ("crc8Calculate", ["ints"], "int"), "Frame.checksum": ("checksum", ["ints"], "int")},
          model="Model.respValidate payload"),
+    dict(name="constructDispatch", file=CMD, func="Response._construct", inputs=[("frame", "bytes")],
+         out=("dispatch",), rtype="R (Int × Bytes)", effectful=True, native_bytes=True, enum_files=["msmart/const.py"],
+         class_tags={"Response": 0, "StateResponse": 1, "CapabilitiesResponse": 2, "PropertiesResponse": 3,
+                     "EnergyUsageResponse": 4, "HumidityResponse": 5},
+         externals={"Frame.validate": ("frameValidate", ["bytes"], "unit", True),
+                    "Response.validate": ("responseValidate", ["bytes"], "unit", True),
+                    "cls.validate": ("responseValidate", ["bytes"], "unit", True)},
+         model="Model.constructDispatch frame"),
     dict(name="nextMessageId", file=CMD, func="Command._next_message_id", inputs=[("cls._message_id", "int")],
          class_state=("_message_id",), out=("value_state", "cls._message_id"), rtype="Int × Int",
          model="(((Model.nextMessageId _message_id.toNat).2.toNat : Int), ((Model.nextMessageId _message_id.toNat).1 : Int))"),
@@ -1473,6 +1520,15 @@ def translate_all(repo=None):
             sp["nested_consts"] = {n.name: class_int_consts(n) for n in (cls.body if cls is not None else [])
                                    if isinstance(n, ast.ClassDef)}
             sp["class_name"] = cls.name if cls is not None else None
+            def is_enum(n):
+                return isinstance(n, ast.ClassDef) and any(isinstance(b, ast.Name) and b.id in ("IntEnum", "MideaIntEnum") for b in n.bases)
+            enums = {n.name: class_int_consts(n) for n in tree.body if is_enum(n)}
+            for extra in spec.get("enum_files", []):
+                ep = os.path.join(repo, extra)
+                if ep not in trees:
+                    trees[ep] = ast.parse(open(ep).read())
+                enums.update({n.name: class_int_consts(n) for n in trees[ep].body if is_enum(n)})
+            sp["module_enums"] = {k: v for k, v in enums.items() if v}
             argnames = [a.arg for a in fn.args.args]
             if argnames and argnames[0] in ("self", "cls"):
                 argnames = argnames[1:]
